@@ -462,8 +462,10 @@ def user_script(w):
     # scheduler is still alive
     fw = []
     try:
+        from s3transfer.utils import SlidingWindowSemaphore
+        from s3transfer.manager import IN_MEMORY_DOWNLOAD_TAG
         for tag, sem in m._request_executor._tag_semaphores.items():
-            if hasattr(sem, 'current_count'):
+            if tag is IN_MEMORY_DOWNLOAD_TAG and isinstance(sem, SlidingWindowSemaphore):
                 fw.append((sem.current_count(), m.config.max_in_memory_download_chunks))
     except AttributeError:
         pass
